@@ -110,6 +110,7 @@ const PROFILES: &[Profile] = &[
     Profile { steps: Some(3000), ..prof("churn-window", "map", "churn") },
     prof("saturate", "map", "saturate"),
     prof("mixed", "map", "mixed"),
+    Profile { steps: Some(260), ..prof("retain-chain", "map", "retainchain") },
     prof("reserve", "map", "reserve"),
     prof("iter", "map", "iter"),
     prof("xback", "map", "xback"),
@@ -228,6 +229,11 @@ fn make_base(prof: &Profile, seed: u64, i: usize, real: Option<&mut dyn Write>) 
     let scripted = prof.name == "entry-sat" && rng.chance(1, 4);
     let kind = if scripted { "sequential" } else { kind };
     let kind = if prof.name == "churn-window" && rng.chance(2, 3) { "sequential" } else { kind };
+    let (kind, universe) = if prof.name == "retain-chain" {
+        (*rng.pick(&["samepos", "samepos", "cluster", "groupstride", "const0", "sametag", "sequential"]), *rng.pick(&[64u64, 128, 200]))
+    } else {
+        (kind, universe)
+    };
     let steps = match prof.gen {
         "saturate" => prof.steps.unwrap_or(150 + rng.below(250) as usize),
         _ => prof.steps.unwrap_or(20 + rng.below(200) as usize),
